@@ -1,9 +1,13 @@
 import Tahoe.Base.DrvUtil
 import Tahoe.Web.Range
+import Tahoe.Web.Handler
 /-! Driver for C40: `c40 <size> G|H <range-header as hex of its ASCII bytes | none>`; the file is the
     `size` bytes `i % 251`.  `c40asis` runs the model of the code as it is, `c40` the repaired one.
     Output: `200|-|<content-length>|<body-hex>`, `206|<first>-<last>/<size>|<content-length>|<body-hex>`
-    or `416`. -/
+    or `416`.
+    `c40h <size> G|H <mutable 0|1> <b32 storage index as hex | none> <If-None-Match as hex | none> <Range as hex | none>`
+    runs the model of `FileNodeHandler.render_GET` / `render_HEAD`; output
+    `<status>|<etag or ->|<first>-<last>/<size> or -|<content-length or ->|<body-hex>`. -/
 open Tahoe.Drv Tahoe.Web
 
 def fileOf (n : Nat) : Tahoe.Web.Bytes := (List.range n).map (fun i => UInt8.ofNat (i % 251))
@@ -25,7 +29,28 @@ def go (v : Variant) (size meth hdr : String) : String :=
   | some n, some isHead, some h => showResp (render v (fileOf n) isHead h)
   | _, _, _ => "bad-op"
 
+def optStr (h : String) : Option (Option (List Char)) :=
+  if h == "none" then some none else (strOfHex h).map some
+
+def showH (r : HResp) : String :=
+  let et := match r.etag with | some e => String.ofList e | none => "-"
+  let cr := match r.contentRange with
+    | some (a, b, n) => s!"{a}-{b}/{n}"
+    | none => "-"
+  let cl := match r.contentLength with | some c => toString c | none => "-"
+  s!"{r.status}|{et}|{cr}|{cl}|{hexOfBytes r.body}"
+
+def goH (size meth mu si inm range : String) : String :=
+  match size.toNat?, (if meth == "G" then some false else if meth == "H" then some true else none),
+        (if mu == "0" then some false else if mu == "1" then some true else none),
+        optStr si, optStr inm, optStr range with
+  | some n, some isHead, some m, some s, some i, some r =>
+    let node : NodeInfo := ⟨m, s⟩
+    showH (if isHead then renderHEAD .fixed node (fileOf n) i r else renderGET .fixed node (fileOf n) i r)
+  | _, _, _, _, _, _ => "bad-op"
+
 def handle : List String → String
+  | ["c40h", size, meth, mu, si, inm, range] => goH size meth mu si inm range
   | ["c40", size, meth, hdr] => go .fixed size meth hdr
   | ["c40asis", size, meth, hdr] => go .asIs size meth hdr
   | _ => "bad-op"
